@@ -106,13 +106,19 @@ def is_lazy(ra):
 
 # --------------------------------------------------------------------------- comparisons
 
+def same_dtype(a, b):
+    """the same element type; the byte order of the memory representation is not part of it ('>i4' holds the same values as '<i4')"""
+    a, b = np.dtype(a), np.dtype(b)
+    return a == b or (a.kind == b.kind and a.itemsize == b.itemsize and a.kind in "biuf")
+
+
 def same_array(a, b, dtype=True):
     """element-wise equality incl. shape, NaN == NaN; optionally dtype"""
     a = np.asarray(a)
     b = np.asarray(b)
     if a.shape != b.shape:
         return False
-    if dtype and a.dtype != b.dtype:
+    if dtype and not same_dtype(a.dtype, b.dtype):
         return False
     if a.dtype.kind in "fc" or b.dtype.kind in "fc":
         try:
